@@ -699,6 +699,31 @@ func main() {
 	w("def timeouts : List String := %s", leanList(timeouts))
 	w("")
 
+	// ---- the hand's request groups: response time-out and what its callback does (NewGame in game.go)
+	gtSecs := "0"
+	gtBody := []string{}
+	if fd := findFunc(gameF, "", "NewGame"); fd != nil {
+		ast.Inspect(fd, func(n ast.Node) bool {
+			c, ok := n.(*ast.CallExpr)
+			if !ok || src(c.Fun) != "syncsaga.WithTimeout" || len(c.Args) != 2 {
+				return true
+			}
+			if lit, ok := c.Args[0].(*ast.BasicLit); ok {
+				gtSecs = lit.Value
+			}
+			if fl, ok := c.Args[1].(*ast.FuncLit); ok && fl.Body != nil {
+				for _, st := range fl.Body.List {
+					gtBody = append(gtBody, src(st))
+				}
+			}
+			return false
+		})
+	}
+	w("/-- response time-out of the hand's ready / ante / blind groups (seconds) and its callback, statement by statement -/")
+	w("def gameTimeoutSecs : Nat := %s", gtSecs)
+	w("def gameTimeoutBody : List String := %s", leanList(gtBody))
+	w("")
+
 	// ---- actor facts
 	w("/-- observerRunner.UpdateTableState, statement by statement -/")
 	w("def observerUpdate : List String := %s", leanList(stmtSrcs(findFunc(obs, "observerRunner", "UpdateTableState"))))
